@@ -144,6 +144,25 @@ def build_sig_script(rng, xonly, allow_codesep, nsig=None, fill=True):
 
 def make(rng, kind=None, damage=False):
     """-> {"tx": hex, "txin": hex, "kind": kind, "opts": [...]}"""
+    # one spend in eight is signed with high-S ECDSA signatures (as much of the chain before 2015): valid, and
+    # accepted once the LOW_S policy flag is switched off
+    ecc.HIGH_S = rng.chance(12)
+    try:
+        out = _make(rng, kind, damage)
+    finally:
+        hs, ecc.HIGH_S = ecc.HIGH_S, False
+    if hs and out["kind"] not in ("p2tr", "tapscript"):
+        for i, o in enumerate(out["opts"]):
+            if o.startswith("--modify-flags="):
+                out["opts"][i] = o + ",-LOW_S"
+                break
+        else:
+            out["opts"].append("--modify-flags=-LOW_S")
+        out["high_s"] = True
+    return out
+
+
+def _make(rng, kind=None, damage=False):
     kind = kind or rng.weighted([(3, "p2pkh"), (2, "multisig"), (3, "p2sh-multisig"), (2, "p2sh-generic"), (1, "p2sh-empty"), (1, "p2wsh-template"), (2, "hashlock"), (2, "legacy-codesep"), (2, "p2wpkh"),
                                  (1, "p2sh-p2wpkh"), (4, "p2wsh"), (2, "p2sh-p2wsh"), (2, "p2tr"), (7, "tapscript")])
     opts = []
